@@ -246,6 +246,8 @@ class IdentityLinearOperator(ConstantDiagLinearOperator):
         if lhs is None:
             return self._maybe_reshape_rhs(rhs)
         else:
+            batch_shape = torch.broadcast_shapes(self._batch_shape, lhs.shape[:-2], rhs.shape[:-2])
+            lhs = lhs.expand(*batch_shape, *lhs.shape[-2:])
             sqrt_inv_matmul = lhs @ rhs
             inv_quad = lhs.pow(2).sum(dim=-1)
             return sqrt_inv_matmul, inv_quad
